@@ -127,9 +127,12 @@ func (r *runner) checkLookups(op int, v *preconfirmed.ChainReader, b uint64, nf 
 	var wantRc *core.TransactionReceipt
 	var wantRcBlock uint64
 	for _, e := range nf { // the definition: first match scanning the view's blocks newest first
+		if e == nil || e.Block == nil {
+			continue
+		}
 		if wantTx == nil {
 			for _, tx := range e.Block.Transactions {
-				if tx.Hash().Equal(h) {
+				if tx != nil && tx.Hash().Equal(h) {
 					wantTx = tx
 					break
 				}
@@ -137,7 +140,7 @@ func (r *runner) checkLookups(op int, v *preconfirmed.ChainReader, b uint64, nf 
 		}
 		if wantRc == nil {
 			for _, rc := range e.Block.Receipts {
-				if rc.TransactionHash.Equal(h) {
+				if rc != nil && rc.TransactionHash.Equal(h) {
 					wantRc, wantRcBlock = rc, e.Block.Number
 					break
 				}
@@ -359,7 +362,13 @@ func (r *runner) step(i int, o OpSpec) string {
 	case "lookup":
 		v := r.store.SnapshotForBlock(o.Head)
 		nf := r.checkView(i, &v, o.Head)
-		txTok, rcTok := r.checkLookups(i, &v, o.Head, nf, o.Hash)
+		txTok, rcTok := "panic", "panic"
+		if err, panicked, stack := lib.Try(func() error {
+			txTok, rcTok = r.checkLookups(i, &v, o.Head, nf, o.Hash)
+			return nil
+		}); panicked {
+			r.violate(i, "lookup-panics", fmt.Sprintf("lookup of hash %d in the view for block %d: %v\n%s", o.Hash, o.Head, err, clip(stack)))
+		}
 		if txTok == "notfound" {
 			r.hit("lookup-tx-notfound")
 		} else {
